@@ -1005,7 +1005,7 @@ macro_rules! impl_str_map_helper {
         {
             #[inline(always)]
             fn get_value(self: &Arc<Self>, key: &Value) -> Option<Value> {
-                self.get(some!(key.as_str())).cloned().map(|v| v.into())
+                self.get(some!(key.as_key_str())).cloned().map(|v| v.into())
             }
 
             #[inline(always)]
@@ -1037,7 +1037,7 @@ macro_rules! impl_static_str_map_helper {
         {
             #[inline(always)]
             fn get_value(self: &Arc<Self>, key: &Value) -> Option<Value> {
-                self.get(some!(key.as_str())).cloned().map(|v| v.into())
+                self.get(some!(key.as_key_str())).cloned().map(|v| v.into())
             }
 
             #[inline(always)]
